@@ -171,6 +171,10 @@ namespace BitSerializer::Csv::Detail
 			// Handle end of file (RFC: The last record in the file may or may not have an ending line break)
 			if (mCurrentPos == mSourceString.size())
 			{
+				// A separator at the very end of the input is followed by one more (empty) value
+				if (!isEndLine && endValuePos != totalSize) {
+					out_values.emplace_back(mCurrentPos, 0, false);
+				}
 				break;
 			}
 		}
